@@ -146,7 +146,7 @@ def global_grid(config, a, b):
 
 
 def build(config, history, comps, out_len, estimator=None, grid=None, operation=None, tol=0.5, perform=True,
-          vectorized=None, perform_kwargs=None, sa_kwargs=None, observer=None, resume=None):
+          vectorized=None, perform_kwargs=None, sa_kwargs=None, observer=None, resume=None, time_stop=None):
     """Construct fresh real objects for `config`, run the real adaptive loop along `history`.
     comps: callable x -> list of out_len floats (component 0 conventionally 'drives', with the scripted
     estimator it is irrelevant).  Returns a Run with sa, op, eo, snaps [(before, after)], result."""
@@ -183,14 +183,30 @@ def build(config, history, comps, out_len, estimator=None, grid=None, operation=
             eo.pointer += 1
 
     sa.refine = refine_wrapper
-    if observer is not None:
+    r.vclock = None
+    if observer is not None or time_stop is not None:
         orig_eval = sa.evaluate_operation
 
         def eval_wrapper():
             out = orig_eval()
-            observer(r)
+            if r.vclock is not None:
+                r.vclock.advance(1.0)        # one unit of virtual time per completed evaluation
+            if observer is not None:
+                observer(r)
             return out
         sa.evaluate_operation = eval_wrapper
+    if perform and time_stop is not None:
+        # the run is ended by its TIME budget after evaluation number time_stop (0-based) - virtual clock owned by the harness,
+        # see mc/clock.py - i.e. after time_stop scripted refinement steps, although the script would go on
+        from mc import clock
+        from mc.core import HarnessError
+        with clock.virtual_clock() as vt:
+            r.vclock = vt
+            r.result = sa.performSpatiallyAdaptiv(config["lmin"], config["lmax"], eo, tol=tol, print_output=False,
+                                                  max_time=time_stop + 0.5, **(perform_kwargs or {}))
+        r.vclock = None
+        r.steps_executed = eo.pointer
+        return r
     if perform:
         if resume is not None:      # (k, how): stop after k scripted steps, then continue ("continue" / "container")
             eo.limit = min(resume[0], len(history))
